@@ -109,7 +109,8 @@ def load_known():
 
 def match_known(known, prop, contract, ob, values):
     for k in known:
-        if k['property'] != prop or k['contract'] != contract or k['obligation'] != ob:
+        import fnmatch
+        if k['property'] != prop or not fnmatch.fnmatchcase(contract, k['contract']) or not fnmatch.fnmatchcase(ob, k['obligation']):
             continue
         cond = k.get('when')
         if cond:
